@@ -50,11 +50,29 @@ INVARIANTS
     return res.printed
 
 
+MAX_VIOL = 3      # a failing run stops validating once this many violations are in hand
+
+
 def exec_validate(run, group, behs, batch=2000):
+    """Execute the behaviours on the real code and validate the traces.  Validation goes in
+    growing chunks (30, 300, rest): the framework re-validates a batch once per failing trace,
+    so a regression that breaks many traces is pinned down on a small chunk and the run stops
+    instead of re-validating thousands of traces hundreds of times."""
     if not behs:
         return
+    if len(run.violations) >= MAX_VIOL:
+        v.log("group %s skipped: %d violations already found" % (group, len(run.violations)))
+        return
     traces = run.execute(HARNESS, PKG, TEST, behs, tag="c11-" + group)
-    run.validate(TRACE[0], TRACE[1], traces, behs, known_cfg=TRACE[2], group=group, batch=batch)
+    cuts = [0, len(traces)] if len(traces) <= 100 else [0, 30, min(330, len(traces)), len(traces)]
+    for a, b in zip(cuts, cuts[1:]):
+        if a >= b:
+            continue
+        run.validate(TRACE[0], TRACE[1], traces[a:b], behs[a:b], known_cfg=TRACE[2], group=group,
+                     batch=min(batch, b - a))
+        if len(run.violations) >= MAX_VIOL:
+            v.log("group %s: stopping after %d violations" % (group, len(run.violations)))
+            return
 
 
 def main(run: Run):
@@ -76,22 +94,35 @@ def main(run: Run):
 
     # 2. exhaustive small scope ON THE REAL CODE: every list over a one-prefix pool
     #    (two local ids x two attribute sets x announce/withdraw, a second prefix, End-of-RIB)
-    for pool, ap, ml in ([("keys1", "ApNone", 3), ("keys1", "ApAll", 3), ("keys6", "ApNone", 2), ("keys6", "ApAll", 2)]
-                         if not thorough else
-                         [("keys1", "ApNone", 4), ("keys1", "ApAll", 4), ("keys6", "ApNone", 3), ("keys6", "ApAll", 3)]):
-        g = "exh-%s-%s" % (pool, ap)
-        behs = run.replay_behaviours(g) if run.replay else \
-            mc(run, pool, ap, 4096, ml, True, ["D_FoldIsDecl", "D_Repaired"], "MCPacking %s %s len<=%d (emitted)" % (pool, ap, ml))
-        exec_validate(run, g, behs)
+    if run.replay:
+        behs = run.replay_behaviours("exh")
+    else:
+        behs = []
+        for pool, ap, ml in ([("keys1", "ApNone", 3), ("keys1", "ApAll", 3), ("keys6", "ApNone", 2), ("keys6", "ApAll", 2)]
+                             if not thorough else
+                             [("keys1", "ApNone", 4), ("keys1", "ApAll", 4), ("keys6", "ApNone", 3), ("keys6", "ApAll", 3)]):
+            behs += mc(run, pool, ap, 4096, ml, True, ["D_FoldIsDecl", "D_Repaired"],
+                       "MCPacking %s %s len<=%d (emitted)" % (pool, ap, ml))
+    exec_validate(run, "exh", behs)
 
     # 3. simulated behaviours: repeated keys / local ids / families / next hops / ADD-PATH /
-    #    extended message / forced hash collisions; boundary sizes; the known-finding zone
-    plan = [("small", 300 if not thorough else 3000, 10 if not thorough else 12, 500),
-            ("bound", 300 if not thorough else 3000, 10 if not thorough else 12, 500),
-            ("noroom", 6 if not thorough else 18, 8, 6)]
-    for i, (scn, num, steps, batch) in enumerate(plan):
-        behs = run.replay_behaviours(scn) if run.replay else gen(run, scn, num, steps, 100, seed * 100 + i)
-        exec_validate(run, scn, behs, batch=batch)
+    #    extended message / 2-octet-AS peer / forced hash collisions; boundary sizes; exact fills
+    if run.replay:
+        behs = run.replay_behaviours("sim")
+    else:
+        behs = []
+        for i, (scn, num, steps) in enumerate([("small", 300 if not thorough else 3000, 10 if not thorough else 12),
+                                               ("bound", 300 if not thorough else 3000, 10 if not thorough else 12),
+                                               ("fill", 60 if not thorough else 400, 2)]):
+            behs += gen(run, scn, num, steps, 100, seed * 100 + i)
+    exec_validate(run, "sim", behs)
+
+    #    the zones of the known findings, validated apart (every trace there fails the strict cfg
+    #    while the finding is open, and the framework re-validates once per failing trace)
+    for i, (scn, num, steps) in enumerate([("noroom", 6 if not thorough else 18, 8),
+                                           ("as2fill", 4 if not thorough else 12, 2)]):
+        behs = run.replay_behaviours(scn) if run.replay else gen(run, scn, num, steps, 100, seed * 100 + 10 + i)
+        exec_validate(run, scn, behs, batch=max(1, len(behs or [])))
 
     # 4. large instances: 10^4 prefixes (+10% re-announcements / withdrawals, End-of-RIB)
     sizes = [10000] if not thorough else [10000, 10000, 20000]
@@ -106,7 +137,8 @@ RULE = ("behaviours = (a) EVERY list up to length 3/4 over a one-prefix pool (2 
         "-simulate lists over 3 families x 2-3 prefixes x 3 local ids x 3 attribute sets x the family's next hops "
         "(v4 with v4 / v6 / v6+link-local next hop, v6, vpnv4) x ADD-PATH subsets x extended message x forced hash "
         "collision, (c) boundary lists whose big attribute block leaves -8..40 octets of NLRI room under 4096 / "
-        "65535, (d) 10^4..2*10^4-prefix instances; each executed on the real table.CreateUpdateMsgFromPaths, "
+        "65535, and lists of 33..63 same-length prefixes whose NLRI fill that room exactly / to one octet short "
+        "of one more NLRI, (d) 10^4..2*10^4-prefix instances; each executed on the real table.CreateUpdateMsgFromPaths, "
         "serialised and re-parsed. non-trivial = a validated pass with a repeated wire key, a message within two "
         "worst-case NLRI of the limit (or refused), or a route that does not fit / fits by < 9 octets "
         "(counted by distinct session + list content)")
@@ -118,6 +150,9 @@ ASSUMPTIONS = [
     "RFC size formulas of PackingDom.tla for every input route; C04 covers the codec itself)",
     "'reported' = BGPMessage.Serialize refuses the message (what fsm.go send() logs and drops); the log line of "
     "fsm.go itself is not observed at table level",
+    "the steps of fsm.go send() between packing and the socket (2-octet-AS rewriting, Serialize with the "
+    "session's options, drop on error) are re-enacted by the harness with the same functions; send() itself, "
+    "its counters and the session staying up are observed by the server-level checks (C01/C08), not here",
     "message order among different attribute groups is Go map order: the receiver model is order-insensitive "
     "for distinct keys and nothing more is demanded",
 ]
